@@ -205,6 +205,34 @@ def part_a(chk, max_log2_psk, depth, qam_orders):
             m = ctor()
             check_constellation(chk, kind, m.M, (), m.symbols, case)
         chk.states += 1
+    # several live objects of one configuration: the owner of one object edits ITS public table in
+    # place (re-labels it); a sibling built before and an object built afterwards must still carry
+    # the constellation "produced by the library" for that configuration (no table shared between
+    # objects, no process-wide cache handing out the edited array)
+    makers = [("psk", 2 ** k, (lambda M=2 ** k, p=p: F.PSK(M, _off(p, M))), _off(p, 2 ** k))
+              for k in range(1, max_log2_psk + 1) for p in (0.0, None, 1.0)]
+    makers += [("qam", M, (lambda M=M: F.QAM(M)), None) for M in qam_orders]
+    makers += [("qpsk", 4, F.QPSK, None), ("bpsk", 2, F.BPSK, None)]
+    for kind, M, make, p in makers:
+        case = {"part": "A", "kind": kind, "M": M, "phase_offset": p, "what": "siblings"}
+        with chk.guard((kind + "_gray", "siblings"), case):
+            before = make()
+            owner = make()
+            reference = np.array(before.symbols, copy=True)
+            try:
+                owner.symbols[...] = owner.symbols[::-1].copy()      # natural <-> reversed labelling
+                scribbled = True
+            except (ValueError, TypeError):                           # a read-only table: nothing to share
+                scribbled = False
+            after = make()
+            chk.outcome("sibling_tables", (kind, "writable" if scribbled else "read_only"))
+            chk.count("eval_constellations")
+            for who, obj in (("sibling_built_before", before), ("object_built_afterwards", after)):
+                if not np.array_equal(np.asarray(obj.symbols), reference):
+                    chk.fail((kind + "_gray", "table_shared_between_objects", who), case,
+                             observed="symbols of the %s changed after another object's table was edited in place"
+                             % who.replace("_", " "), expected="the constellation of a fresh object")
+        chk.states += 1
 
 
 # ----------------------------------------------------------------------
